@@ -85,8 +85,19 @@ pub fn c07(seed: u64, n: usize) {
         for k in [-2.0, -1.0, 1.0, 2.0] { angles.push(base.map(|x| x + 2.0 * PI * k)); }
         emit_c07(fam, r.below(3).min(2) * 0 + [0usize, 2][r.below(2)], &f, &t, r.unit(), &angles);
     }
+    // signed zeros: -0.0 == 0.0, so (-0.0, 0.0) is "from == to" (unconstrained), as for symmetric limits [-L, L] with L = 0
+    {
+        let ang: Vec<Joints> = (0..20).map(|_| rand_joints(&mut r, 7.0)).collect();
+        for (a, b) in [(-0.0f64, 0.0f64), (0.0, -0.0), (-0.0, -0.0)] {
+            let mut f = [0.3; 6]; let mut t = [0.9; 6];
+            f[0] = a; t[0] = b; f[4] = b; t[4] = a;
+            for ctor in [0usize, 2, 3] { emit_c07("signed-zero", ctor, &f, &t, 0.0, &ang); }
+            emit_c07("signed-zero/degrees", 1, &f.map(|x| x.to_degrees()), &t.map(|x| x.to_degrees()), 0.0, &ang);
+        }
+    }
+    // the URDF loader turns <limit> elements (radians, ${radians(whole or fractional degrees)}) into these limits
+    crate::props_file::urdf_cases("C07", &mut r, (n / 400).max(30));
 }
-
 // ---------------------------------------------------------------- C18 sampler
 pub fn c18(seed: u64, n: usize) {
     let mut r = Rng::new(seed ^ 0xC18);
